@@ -169,7 +169,8 @@ theorem racc_headD (mf : Nat) (s : BS) (k : Nat) (g : Good mf s) (hk : k < s.tex
 theorem scanU_sim {α β : Type} {R : α → β → Prop} (mf : Nat) (dia : Dialect) (s : BS) (lead : Bool) (k : Nat)
     (g : Good mf s) (hlt : s.sb.next < s.sb.limit) (hk : k ≤ s.text.length) (hl : lead = true → k < s.text.length)
     {f : UStep × BS → L α} {f' : UStep → L β}
-    (hf : ∀ u, Adv mf dia s (stepU dia s u) u.fixPrev u.c → racc k (stepU dia s u) = u.c :: fixAcc dia u.fixPrev (racc k s) →
+    (hf : ∀ u, (u.fixPrev = true → lead = true) → Adv mf dia s (stepU dia s u) u.fixPrev u.c →
+      racc k (stepU dia s u) = u.c :: fixAcc dia u.fixPrev (racc k s) →
       Sim R (f (u, stepU dia s u)) (f' u)) :
     Sim R (L.bind (scanUCharB dia s lead) f)
       (L.bind (scanUChar dia s.line s.col ((racc k s).headD 0) (s.get s.sb.next) lead) f') := by
@@ -187,7 +188,7 @@ theorem scanU_sim {α β : Type} {R : α → β → Prop} (mf : Nat) (dia : Dial
   have hfix := scanUChar_fix hu
   have hlen := g.text_length
   have a := (stepU_adv mf dia s u g hlt (fun h => by have := hl (hfix h); omega)).1
-  apply hf u a
+  apply hf u hfix a
   unfold racc
   rw [a.text]
   by_cases hfx : u.fixPrev = true
@@ -314,7 +315,7 @@ theorem scanToWsB_sim (dia : Dialect) (mf L0 : Nat) : ∀ (fuel : Nat) (s : BS) 
     · rw [if_pos hlt, remaining_cons mf s g hlt]
       simp only [scanToWs, bind_eq, pure_eq]
       apply scanU_sim mf dia s lead 0 g hlt (Nat.zero_le _) hl
-      intro u a hr
+      intro u hfl a hr
       have hrem : (s.remaining).tail = (stepU dia s u).remaining := by rw [a.rem]; rfl
       by_cases hws : metaOf dia u.c = .ws
       · simp only [hws, if_true]
@@ -370,7 +371,7 @@ theorem scanToEolB_sim (dia : Dialect) (mf L0 : Nat) : ∀ (fuel : Nat) (s : BS)
     · rw [if_pos hlt, remaining_cons mf s g hlt]
       simp only [scanToEol, bind_eq, pure_eq]
       apply scanU_sim mf dia s lead 0 g hlt (Nat.zero_le _) hl
-      intro u a hr
+      intro u hfl a hr
       have hrem : (s.remaining).tail = (stepU dia s u).remaining := by rw [a.rem]; rfl
       by_cases hws : classOf dia u.c = .eol
       · simp only [hws, if_true]
@@ -429,7 +430,7 @@ theorem scanUnquotedB_sim (dia : Dialect) (mf L0 : Nat) : ∀ (fuel : Nat) (s : 
     · rw [if_pos hlt, remaining_cons mf s g hlt]
       simp only [scanUnquoted, bind_eq, pure_eq]
       apply scanU_sim mf dia s lead 0 g hlt (Nat.zero_le _) hl
-      intro u a hr
+      intro u hfl a hr
       have hrem : (s.remaining).tail = (stepU dia s u).remaining := by rw [a.rem]; rfl
       have hback : Out mf L0 (endTok (backUp (stepU dia s u)))
           ⟨fixAcc dia u.fixPrev (racc 0 s), ⟨u.c :: (s.remaining).tail, s.line, u.col - 1⟩⟩ := by
@@ -529,7 +530,7 @@ theorem scanTripleB_sim (dia : Dialect) (mf L0 : Nat) (delim : CU) : ∀ (fuel :
     · rw [if_pos hlt, remaining_cons mf s g hlt]
       simp only [scanTriple, bind_eq, pure_eq]
       apply scanU_sim mf dia s lead 3 g hlt h3 hl
-      intro u a hr
+      intro u hfl a hr
       have hrem : (s.remaining).tail = (stepU dia s u).remaining := by rw [a.rem]; rfl
       have hgo : ∀ l' c' dc' sol', Sim (Out mf L0)
           (scanTripleB dia mf delim fuel { stepU dia s u with line := l', col := c' } s.sb.limit u.lead dc' sol')
@@ -598,6 +599,175 @@ theorem scanTripleB_sim (dia : Dialect) (mf L0 : Nat) (delim : CU) : ∀ (fuel :
       · rw [if_pos rfl]
         have := ih (getMore mf s).2 (getMore mf s).2.sb.limit lead dc sol hs.1 rfl (by rw [hs.2.2.1, h0]) (by rw [hs.2.1]; exact h3)
           (by rw [hs.2.1]; exact hl)
+          (by simp only [BS.measure, hs.2.2.2.2.2.2.2.1] at hm ⊢; have := (hs.2.2.2.2.2.2.2.2.2 hb).2; omega)
+          (by rw [hs.2.1, hs.2.2.2.2.2.2.2.1, hL])
+        rw [hs.2.2.2.2.2.2.2.1, hs.2.2.2.1, hs.2.2.2.2.1, hrc] at this
+        exact this
+
+/-! ### scan_text -/
+
+/-- `*(next_char - j)` for a unit of the token text -/
+theorem get_back (mf : Nat) (s : BS) (g : Good mf s) (j : Nat) (h1 : 1 ≤ j) (h2 : j ≤ s.text.length) :
+    s.get (s.sb.next - j) = s.text.reverse.getD (j - 1) 0 := by
+  obtain ⟨i1, i2, i3, i4, i5⟩ := g.inv
+  have hlen := g.text_length
+  simp only [BS.get, BS.text, SB.tokenText] at *
+  rw [List.getD_eq_getElem?_getD, List.getD_eq_getElem?_getD, List.getElem?_reverse (by simp; omega)]
+  grind
+
+theorem racc_one (s : BS) (h : 1 ≤ s.text.length) : racc 1 s = s.text.reverse.take (s.text.length - 1) := by
+  unfold racc
+  rw [List.take_reverse]
+  congr 2; omega
+
+/-- the closing-delimiter size test of scan_text, `*(next_char - 2) == LF && *(next_char - 3) == CR`, against the lexer model's
+    test on its accumulator (which does not hold the opening semicolon) -/
+theorem dsize_eq (mf : Nat) (s : BS) (g : Good mf s) (h3 : 3 ≤ s.text.length) (hd : s.text.head? ≠ some 13) :
+    (s.get (s.sb.next - 2) = 10 ∧ s.get (s.sb.next - 3) = 13) ↔ ((racc 1 s).getD 1 0 = 10 ∧ (racc 1 s).getD 2 0 = 13) := by
+  rw [get_back mf s g 2 (by omega) (by omega), get_back mf s g 3 (by omega) (by omega), racc_one s (by omega)]
+  have e1 : (s.text.reverse.take (s.text.length - 1)).getD 1 0 = s.text.reverse.getD 1 0 := by
+    rw [List.getD_eq_getElem?_getD, List.getD_eq_getElem?_getD, List.getElem?_take, if_pos (by omega)]
+  rw [e1]
+  by_cases h4 : 4 ≤ s.text.length
+  · have e2 : (s.text.reverse.take (s.text.length - 1)).getD 2 0 = s.text.reverse.getD 2 0 := by
+      rw [List.getD_eq_getElem?_getD, List.getD_eq_getElem?_getD, List.getElem?_take, if_pos (by omega)]
+    rw [e2]
+  · have hl : s.text.length = 3 := by omega
+    have e2 : (s.text.reverse.take (s.text.length - 1)).getD 2 0 = 0 := by
+      rw [List.getD_eq_getElem?_getD, List.getElem?_take, if_neg (by omega)]; rfl
+    have e3 : s.text.reverse.getD 2 0 ≠ 13 := by
+      rw [List.getD_eq_getElem?_getD, List.getElem?_reverse (by omega), hl]
+      intro h
+      apply hd
+      rw [List.head?_eq_getElem?]
+      have : (3 - 1 - 2) = 0 := rfl
+      rw [this] at h
+      cases h0 : s.text[0]? with
+      | none => rw [h0] at h; simp at h
+      | some v => rw [h0] at h; simp at h; rw [h]
+    rw [e2]
+    constructor
+    · intro h; exact absurd h.2 e3
+    · intro h; exact absurd h.2 (by decide)
+
+theorem Adv.head {mf : Nat} {dia : Dialect} {s s1 : BS} {fix : Bool} {c' : CU} (a : Adv mf dia s s1 fix c') (h1 : 1 ≤ s.text.length)
+    (hf : fix = true → 1 < s.text.length) : s1.text.head? = s.text.head? := by
+  rw [a.text]
+  cases fix with
+  | false =>
+    simp only [Bool.false_eq_true, if_false]
+    cases ht : s.text with
+    | nil => rw [ht] at h1; simp at h1
+    | cons x t => rfl
+  | true =>
+    have := hf rfl
+    simp only [if_true]
+    cases ht : s.text with
+    | nil => rw [ht] at h1; simp at h1
+    | cons x t =>
+      cases t with
+      | nil => rw [ht] at this; simp at this
+      | cons y t' => rfl
+
+theorem scanTextB_sim (dia : Dialect) (mf L0 : Nat) : ∀ (fuel : Nat) (s : BS) (top : Nat) (lead : Bool) (sol : Nat),
+    Good mf s → top = s.sb.limit → s.sb.tvalueOffset = 0 → 1 ≤ s.text.length → (lead = true → 1 < s.text.length) →
+    (sol ≠ 0 → 1 < s.text.length) → s.text.head? ≠ some 13 →
+    s.measure < fuel → s.text.length + s.remaining.length = L0 →
+    Sim (Out mf L0) (scanTextB dia mf fuel s top lead sol)
+      (scanText dia s.remaining s.line s.col lead (racc 1 s) sol) := by
+  intro fuel
+  induction fuel with
+  | zero => intro s top lead sol g ht h0 h1 hl hsol hhd hm hL; omega
+  | succ fuel ih =>
+    intro s top lead sol g ht h0 h1 hl hsol hhd hm hL
+    subst ht
+    unfold scanTextB
+    by_cases hlt : s.sb.next < s.sb.limit
+    · rw [if_pos hlt, remaining_cons mf s g hlt]
+      simp only [scanText, bind_eq, pure_eq]
+      apply scanU_sim mf dia s lead 1 g hlt h1 hl
+      intro u hfl a hr
+      have hrem : (s.remaining).tail = (stepU dia s u).remaining := by rw [a.rem]; rfl
+      have hgo : ∀ l' c' sol', Sim (Out mf L0)
+          (scanTextB dia mf fuel { stepU dia s u with line := l', col := c' } s.sb.limit u.lead sol')
+          (scanText dia (s.remaining).tail l' c' u.lead (u.c :: fixAcc dia u.fixPrev (racc 1 s)) sol') := by
+        intro l' c' sol'
+        have a' : Adv mf dia s { stepU dia s u with line := l', col := c' } u.fixPrev u.c := a.congr rfl rfl rfl
+        have hr' : racc 1 { stepU dia s u with line := l', col := c' } = u.c :: fixAcc dia u.fixPrev (racc 1 s) := hr
+        have hrem' : (s.remaining).tail = ({ stepU dia s u with line := l', col := c' } : BS).remaining := hrem
+        have hfx : u.fixPrev = true → 1 < s.text.length := fun h => hl (hfl h)
+        have := ih { stepU dia s u with line := l', col := c' } s.sb.limit u.lead sol' a'.good a'.limit.symm (by rw [a'.tvoff, h0])
+          (by rw [a'.tlen g]; omega) (fun _ => by rw [a'.tlen g]; omega) (fun _ => by rw [a'.tlen g]; omega)
+          (by rw [a'.head h1 hfx]; exact hhd)
+          (by have := a'.measure; omega) (by rw [a'.sum g, hL])
+        rw [hr', ← hrem'] at this
+        exact this
+      by_cases hsemi : classOf dia u.c = .semi
+      · simp only [hsemi, if_true]
+        by_cases hs0 : sol ≠ 0
+        · simp only [hs0, ne_eq, not_false_eq_true, if_true]
+          apply sim_pure
+          have hlen3 : 3 ≤ (stepU dia s u).text.length := by rw [a.tlen g]; have := hsol hs0; omega
+          have hfx : u.fixPrev = true → 1 < s.text.length := fun _ => hsol hs0
+          have hds := dsize_eq mf (stepU dia s u) a.good hlen3 (by rw [a.head h1 hfx]; exact hhd)
+          rw [hr] at hds
+          have o := fun d => out_endDelim mf L0 (stepU dia s u) 1 d a.good (by rw [a.tvoff, h0]) (by rw [a.tlen g]; omega) (by rw [a.sum g, hL])
+          by_cases hcond : (stepU dia s u).get ((stepU dia s u).sb.next - 2) = 10 ∧ (stepU dia s u).get ((stepU dia s u).sb.next - 3) = 13
+          · rw [if_pos hcond, if_pos (hds.mp hcond)]
+            have := o 3
+            rw [hr, ← hrem, stepU_col, stepU_line] at this
+            exact this
+          · rw [if_neg hcond, if_neg (fun h => hcond (hds.mpr h))]
+            have := o 2
+            rw [hr, ← hrem, stepU_col, stepU_line] at this
+            exact this
+        · simp only [hs0, if_false]
+          have := hgo s.line u.col sol
+          rw [← stepU_line dia s u, ← stepU_col dia s u]
+          rw [← stepU_line dia s u, ← stepU_col dia s u] at this
+          exact this
+      · simp only [hsemi, if_false]
+        by_cases he : classOf dia u.c = .eol
+        · simp only [he, if_true]
+          rw [handleEolB_eq, L.bind_assoc]
+          show Sim _ (L.bind (handleEol (stepU dia s u).line ((stepU dia s u).col - 1) sol u.c) _) _
+          rw [stepU_line, stepU_col]
+          apply sim_bind_same
+          intro x
+          obtain ⟨l', c', s'⟩ := x
+          simp only [L.pure_bind]
+          exact hgo l' c' s'
+        · simp only [he, if_false]
+          have := hgo s.line u.col 0
+          rw [← stepU_line dia s u, ← stepU_col dia s u]
+          rw [← stepU_line dia s u, ← stepU_col dia s u] at this
+          exact this
+    · rw [if_neg hlt]
+      have hnl : s.sb.next = s.sb.limit := by have := g.inv.2.2.1; omega
+      have hs := getMore_spec mf s g hnl
+      have hrc : racc 1 (getMore mf s).2 = racc 1 s := by unfold racc; rw [hs.2.1]
+      show Sim _ (if (getMore mf s).1 = true then _ else _) _
+      cases hb : (getMore mf s).1
+      · rw [if_neg (by simp)]
+        have hr := (hs.2.2.2.2.2.2.2.2.1 hb).1
+        rw [hr]
+        simp only [scanText, bind_eq, pure_eq]
+        have hu := unpairedLeadB_sim mf dia (getMore mf s).2 lead 1 hs.1 (by rw [hs.2.1]; exact h1) (by rw [hs.2.1]; exact hl)
+        rw [hrc, hs.2.2.2.1, hs.2.2.2.2.1] at hu
+        apply sim_bind hu
+        intro s' acc' ⟨g', e1, e2, e3, e4, e5, e6⟩
+        rw [e3, e4]
+        apply sim_bind_same
+        intro _
+        apply sim_pure
+        have o := out_endDelim mf L0 s' 1 0 g' (by rw [e5, hs.2.2.1, h0]) (by rw [e6, hs.2.1]; exact h1)
+          (by rw [e6, e2, hs.2.1, hs.2.2.2.2.2.2.2.1, hL])
+        subst e1
+        rw [e2.trans (hs.2.2.2.2.2.2.2.1.trans hr), e3, e4] at o
+        exact o
+      · rw [if_pos rfl]
+        have := ih (getMore mf s).2 (getMore mf s).2.sb.limit lead sol hs.1 rfl (by rw [hs.2.2.1, h0]) (by rw [hs.2.1]; exact h1)
+          (by rw [hs.2.1]; exact hl) (by rw [hs.2.1]; exact hsol) (by rw [hs.2.1]; exact hhd)
           (by simp only [BS.measure, hs.2.2.2.2.2.2.2.1] at hm ⊢; have := (hs.2.2.2.2.2.2.2.2.2 hb).2; omega)
           (by rw [hs.2.1, hs.2.2.2.2.2.2.2.1, hL])
         rw [hs.2.2.2.2.2.2.2.1, hs.2.2.2.1, hs.2.2.2.2.1, hrc] at this
